@@ -3,7 +3,7 @@
 # applies seeded/<id>/patch.diff to /repo, runs the check of the property named in meta.json,
 # reverts /repo, prints CAUGHT/MISSED.  /repo must be clean before.
 set -u
-d=$1; tier=${2:-quick}
+d=$(realpath $1); tier=${2:-quick}
 prop=$(python3 -c "import json,sys;print(json.load(open('$d/meta.json'))['property'])")
 if [ -n "$(git -C /repo status --porcelain)" ]; then echo "repo not clean"; exit 2; fi
 git -C /repo apply "$d/patch.diff" || { echo "patch does not apply"; exit 2; }
